@@ -160,8 +160,10 @@ def gen_case(rng, template, mode):
             parts[k]["start"] = parts[k]["end"] = None
     c["partitions"] = parts if (parts or rng.random() < 0.5) else None   # nil slice vs empty slice
     r = rng.random()
-    if r < 0.35 or (not parts and r < 0.7):
-        c["maxlag"] = None                      # no partitions at all: Maxlag stays nil
+    if (not parts and r < 0.7) or (parts and r < 0.04):
+        # Maxlag stays nil only for a group without partitions; the evaluator sets it as soon as there is one, so a status
+        # that lists partitions and has no Maxlag is outside the property's domain (kept, rarely, for the correspondence)
+        c["maxlag"] = None
     elif r < 0.8 and parts and parts[0] is not None:
         c["maxlag"] = rng.choice([p for p in parts if p is not None])
     else:
@@ -253,8 +255,10 @@ def parse(line):
 
 
 def status_wf(c):
-    """The facts the evaluator guarantees for the partitions it lists (TmplProofs.status_wf): every entry is a
-    partition whose Start and End are present."""
+    """Statuses a notifier can receive, as far as templates can tell: every listed entry is a partition whose Start and
+    End are present (TmplProofs.listed_partitions_have_ends), and Maxlag is nil only when nothing is listed."""
+    if c["partitions"] and c["maxlag"] is None:
+        return False          # the evaluator sets Maxlag whenever the group has a partition (caching.go:237-239)
     return all(p is not None and p["start"] is not None and p["end"] is not None for p in (c["partitions"] or []))
 
 
